@@ -144,6 +144,15 @@ fn check(def: &DefSpec, run: &mut Run) -> Result<(), String> {
         run.count("rejected", 1);
         if d.errors.iter().any(|m| m.contains("can match invalid UTF-8")) {
             run.count("rejected_for_invalid_utf8", 1);
+        } else if run.prop == "C12" && !d.errors.iter().any(|m| m.contains("UTF-8")) {
+            // rejected for a reason that has nothing to do with UTF-8: the byte-mode rendering must be rejected as well
+            let mut twin = def.clone();
+            twin.utf8 = false;
+            let dt = derive_def(&twin);
+            if dt.panic.is_none() && dt.errors.is_empty() {
+                return Err(format!("definition accepted with utf8 = false is rejected in str mode for a reason unrelated to UTF-8: {:?}", d.errors));
+            }
+            run.count("rejected_in_both_modes", 1);
         }
         return Ok(());
     }
@@ -160,6 +169,20 @@ fn check(def: &DefSpec, run: &mut Run) -> Result<(), String> {
         let dt = derive_def(&twin);
         if dt.panic.is_none() && !dt.errors.is_empty() {
             return Err(format!("definition accepted in str mode is rejected with utf8 = false: {:?}", dt.errors));
+        }
+        // same patterns, same priorities: the mode switch changes nothing else about the definition
+        if let (Some(g), Some(gt)) = (&d.graph, &dt.graph) {
+            let key = |g: &logos_codegen::verif::GraphDump| {
+                let mut v: Vec<(String, usize)> = g.leaves.iter().map(|l| (l.source.clone(), l.priority)).collect();
+                v.sort();
+                v
+            };
+            let (a, b) = (key(g), key(gt));
+            if a != b {
+                let diff: Vec<_> = a.iter().zip(b.iter()).filter(|(x, y)| x != y).take(3).collect();
+                return Err(format!("the patterns of the definition get different priorities in str mode and with utf8 = false: {diff:?}"));
+            }
+            run.count("leaf_priorities_equal_in_both_modes", 1);
         }
     }
     // every pattern
